@@ -112,7 +112,8 @@ def full_eligible(desc):
             return False
         return all(ok(x) for x in t[1:] if isinstance(x, list) and x and isinstance(x[0], str) and x[0] in ("ref", "ann", "list", "tuple", "union", "dep", "int", "bool", "str", "float"))
 
-    return all(ok(t) for p in desc["prods"] for _, t in p["fields"]) and all(p.get("parent") == a for p in desc["prods"])
+    recursive = any('"ref", "%s"' % a in __import__("json").dumps(p["fields"]) for p in desc["prods"])  # "where every abstract type is recursive"
+    return recursive and all(ok(t) for p in desc["prods"] for _, t in p["fields"]) and all(p.get("parent") == a for p in desc["prods"])
 
 
 def leaves_at(model, v, d, depth=1):
